@@ -218,8 +218,16 @@ def categorical_program(rng):
         body.append(["if", [[["cmp", var("c"), "==", num(vals[0])], [["assign", "y", ["add", var("y"), var("x")]]]],
                             [["cmp", var("c"), rng.choice(["==", ">="]), num(vals[1])], [["assign", "y", ["sub", var("y"), num(1)]]]]],
                      [["assign", "y", ["add", var("y"), var("c")]]] if rng.random() < 0.6 else None])
-    elif r < 0.8:
+    elif r < 0.75:
         body.append(["assign", "y", ["add", var("y"), ["mul", var("c"), var("c")]]])
+    else:
+        # an if/elif/else chain whose first branch can never be taken; every branch assigns the same variable
+        dead = rng.choice([["cmp", var("c"), ">", num(max(vals))], ["cmp", var("c"), "<", num(min(vals))], ["cmp", var("c"), "==", num(max(vals) + 1)]])
+        body.append(["if", [[dead, [["assign", "y", ["add", var("y"), num(10)]]]],
+                            [["cmp", var("c"), "==", num(vals[0])], [["assign", "y", ["add", var("y"), num(1)]]]]],
+                     [["assign", "y", ["sub", var("y"), num(1)]]]])
+        body.append(["assign", "z", ["add", var("z"), var("y")]])
+        init.append(["assign", "z", num(0)])
     goals = ["x", "y", "c"] + (["x**2"] if rng.random() < 0.4 else []) + (["c**2"] if rng.random() < 0.3 else [])
     if rng.random() < 0.4:
         # a second, independent choice with the same list of probabilities as the first one; joint moments
